@@ -155,6 +155,11 @@ def run(tier, replay):
             cases.append({"id": 9990 + k, "cmds": [[3, 2]], "steps": [{"a": "send", "k": 1}] + [{"a": "read", "k": 0}] * 2, "pace": "fast", "stallat": 0,
                           "stallms": 0, "grep": grep, "catlimit": 2, "seed": 11 + k, "scale": 100, "lines": [[460, 333]], "shape": "CmdsOne2",
                           "nofinalnl": nl, "drainus": 400})
+        # more files than limiter slots, several times over (reads queue behind the limiter, are admitted later, release)
+        for k, (cl, grep) in enumerate([(1, False), (1, True), (2, False)]):
+            cases.append({"id": 9970 + k, "cmds": [[4, 3, 3, 2]], "steps": [{"a": "send", "k": 1}] + [{"a": "read", "k": 0}] * 3, "pace": "fast", "stallat": 0,
+                          "stallms": 0, "grep": grep, "catlimit": cl, "seed": 51 + k, "scale": 33, "lines": [[130, 100, 99, 66]], "shape": "CmdsOne4",
+                          "nofinalnl": k == 2, "drainus": 0, "max": 0})
         # grep that stops early (max) in files that go on for hundreds of lines behind the stop
         for k, mx in enumerate([1, 2, 5]):
             cases.append({"id": 9980 + k, "cmds": [[3, 2]], "steps": [{"a": "send", "k": 1}] + [{"a": "read", "k": 0}] * 2, "pace": "fast", "stallat": 0,
